@@ -7,6 +7,7 @@ import (
 	"vh/core"
 	"vh/execmon"
 	"vh/outmon"
+	"vh/scen"
 )
 
 func init() { Registry["C07"] = RunC07 }
@@ -176,11 +177,41 @@ func RunC07(e *core.Env) int {
 	if e.Tier == "thorough" {
 		n, k = 3000, 3
 	}
+	if cb, err := NewBatch(e, "corpus", corpusC07()); err == nil {
+		cb.RunTool(e, true)
+		for _, c := range cb.Cases {
+			rep.Eval(1)
+			if c.Run.Exit != 0 {
+				if c.Run.Crashed() {
+					rep.Violate(&core.Violation{Property: "C07", Monitor: "static", Symptom: "crash", Case: c.S.ID, Detail: core.Trunc(c.Run.Stderr, 400), Files: c.ReplayFiles()})
+				} else {
+					rep.Count("err_callback_in_noerr_method_rejected", 1)
+					rep.Distinct("rejected|" + c.S.ID)
+				}
+				continue
+			}
+			if c.Plans != nil {
+				_, infos := PrepareUnit(c)
+				for _, fi := range infos {
+					judgeC07Static(rep, fi)
+				}
+			}
+		}
+	}
 	runExecBatches(e, rep, "errs", n, 150, execmon.Job{NRandom: k, Faults: true}, func(b *Batch, eo *ExecOut) {
 		for id, infos := range eo.Infos {
 			for key, fi := range infos {
 				judgeC07Static(rep, fi)
 				judgeC07(rep, fi, eo.Recs[id+"/"+key])
+			}
+		}
+		// the static part also covers outputs that could not be executed (e.g. because they do not compile)
+		for _, c := range b.Cases {
+			if c.Run.Exit == 0 && c.Plans != nil && !Runnable(c) {
+				_, infos := PrepareUnit(c)
+				for _, fi := range infos {
+					judgeC07Static(rep, fi)
+				}
 			}
 		}
 		for _, r := range eo.Result.Recs {
@@ -191,4 +222,30 @@ func RunC07(e *core.Env) int {
 	})
 	// static part also over not-runnable outputs is covered by C01 (they do not compile)
 	return rep.Finish()
+}
+
+// corpusC07 holds one scenario per kind of error-capable callback wired into a method WITHOUT error
+// result; each must be rejected (or, if accepted, is judged by the static monitor).
+func corpusC07() []*scen.Scenario {
+	var out []*scen.Scenario
+	mk := func(id string, notations []scen.Notation, extras []scen.Param, errSites []string, post string) {
+		b := scen.NewBuilder(nil, scen.Profile{}, id, id)
+		a := b.Struct("", "A", "X int", "gY int")
+		a.Methods = append(a.Methods, "func (r A) GetY() (int, error) {\n\tvtr.Enter(\"A.GetY\")\n\tif vtr.Fail(\"A.GetY\") {\n\t\treturn 0, vtr.ErrOf(\"A.GetY\")\n\t}\n\treturn r.gY, nil\n}\n")
+		b.Struct("", "B", "X int", "Y int")
+		ax := b.Struct("", "AX", "gDeep int")
+		ax.Methods = append(ax.Methods, "func (r AX) Deep() (int, error) {\n\tvtr.Enter(\"AX.Deep\")\n\tif vtr.Fail(\"AX.Deep\") {\n\t\treturn 0, vtr.ErrOf(\"AX.Deep\")\n\t}\n\treturn r.gDeep, nil\n}\n")
+		b.Func("func cvE(v int) (int, error) {\n\tvtr.Enter(\"cvE\", v)\n\tif vtr.Fail(\"cvE\") {\n\t\treturn 0, vtr.ErrOf(\"cvE\")\n\t}\n\treturn v + 1, nil\n}\n", true, "cvE")
+		b.Func("func postE(d *B, s *A) error {\n\tvtr.Enter(\"postE\", d, s)\n\tif vtr.Fail(\"postE\") {\n\t\treturn vtr.ErrOf(\"postE\")\n\t}\n\treturn nil\n}\n", true, "postE")
+		m := &scen.Method{Name: "NoErr", Src: scen.Param{Type: "*A"}, Dst: scen.Param{Type: "*B"}, Notations: notations, Extras: extras, ErrSites: errSites, PostSite: post}
+		s := b.Manual(m)
+		s.InConv = false
+		out = append(out, s)
+	}
+	mk("kc07conv", []scen.Notation{scen.N("conv", "cvE", "X", "Y")}, nil, []string{"cvE"}, "")
+	mk("kc07getter", []scen.Notation{scen.N("map", "GetY()", "Y")}, nil, []string{"A.GetY"}, "")
+	mk("kc07arggetter", []scen.Notation{scen.N("map", "$2.Deep()", "Y")}, []scen.Param{{Type: "AX"}}, []string{"AX.Deep"}, "")
+	mk("kc07argstyle", []scen.Notation{scen.N("style", "arg"), scen.N("map", "$2.Deep()", "Y")}, []scen.Param{{Type: "AX"}}, []string{"AX.Deep"}, "")
+	mk("kc07hook", []scen.Notation{scen.N("postprocess", "postE")}, nil, []string{"postE"}, "postE")
+	return out
 }
